@@ -24,6 +24,7 @@ from geneticengine.algorithms.gp.operators.crossover import GenericCrossoverStep
 from geneticengine.algorithms.gp.operators.elitism import ElitismStep
 from geneticengine.algorithms.gp.operators.mutation import GenericMutationStep
 from geneticengine.algorithms.gp.operators.novelty import NoveltyStep
+from geneticengine.algorithms.gp.operators.evaluation import EvaluateStep
 from geneticengine.algorithms.gp.operators.selection import TournamentSelection, LexicaseSelection
 from geneticengine.algorithms.gp.operators.initializers import StandardInitializer, HalfAndHalfInitializer
 from geneticengine.representations.common import GenericPopulationInitializer
@@ -95,7 +96,7 @@ def build_step(tree, log, path="s"):
         else:
             inner = ExclusiveParallelStep(subs, [float(w) for w in tree["ws"]])
     else:
-        inner = {"elitism": ElitismStep, "novelty": NoveltyStep, "identity": IdentityStep,
+        inner = {"elitism": ElitismStep, "novelty": NoveltyStep, "identity": IdentityStep, "evaluate": EvaluateStep,
                  "tournament": lambda: TournamentSelection(2), "mutation": lambda: GenericMutationStep(1.0),
                  "crossover": lambda: GenericCrossoverStep(1.0), "lexicase": lambda: LexicaseSelection()}[k]()
     return Probe(inner, k, path, log)
